@@ -94,6 +94,17 @@ func rebuildUpdateCommand() {
 
 func performUpdate(processAll bool, ctx *processors.Context) {
 	if processAll {
+		// First make sure that every expression can be generated and every
+		// rule can be found. Nothing is written unless all files can be
+		// processed, so that a failure doesn't leave the rule files
+		// partially updated.
+		performUpdatePass(processAll, ctx, true)
+	}
+	performUpdatePass(processAll, ctx, false)
+}
+
+func performUpdatePass(processAll bool, ctx *processors.Context, checkOnly bool) {
+	if processAll {
 		err := filepath.WalkDir(ctx.RootContext().AssemblyDir(), func(filePath string, dirEntry fs.DirEntry, err error) error {
 			if errors.Is(err, fs.ErrNotExist) {
 				// fail
@@ -115,7 +126,7 @@ func performUpdate(processAll bool, ctx *processors.Context) {
 					return errors.New("failed to match chain offset. Value must not be larger than 255")
 				}
 
-				processRule(id, uint8(chainOffset), filePath, ctx)
+				processRule(id, uint8(chainOffset), filePath, ctx, checkOnly)
 				return nil
 			}
 			return nil
@@ -125,7 +136,7 @@ func performUpdate(processAll bool, ctx *processors.Context) {
 		}
 	} else {
 		filePath := path.Join(ctx.RootContext().AssemblyDir(), ruleValues.fileName)
-		processRule(ruleValues.id, ruleValues.chainOffset, filePath, ctx)
+		processRule(ruleValues.id, ruleValues.chainOffset, filePath, ctx, checkOnly)
 	}
 }
 
@@ -155,7 +166,7 @@ func runAssemble(filePath string) string {
 	return assembly
 }
 
-func processRule(ruleId string, chainOffset uint8, dataFilePath string, ctxt *processors.Context) {
+func processRule(ruleId string, chainOffset uint8, dataFilePath string, ctxt *processors.Context, checkOnly bool) {
 	logger.Info().Msgf("Processing %s, chain offset %d", ruleId, chainOffset)
 	regex := runAssemble(dataFilePath)
 
@@ -171,10 +182,10 @@ func processRule(ruleId string, chainOffset uint8, dataFilePath string, ctxt *pr
 	ruleFilePath := matches[0]
 	logger.Debug().Msgf("Processing rule file %s for rule %s", ruleFilePath, ruleId)
 
-	updateRegex(ruleFilePath, ruleId, chainOffset, regex)
+	updateRegex(ruleFilePath, ruleId, chainOffset, regex, checkOnly)
 }
 
-func updateRegex(filePath string, ruleId string, chainOffset uint8, newRegex string) {
+func updateRegex(filePath string, ruleId string, chainOffset uint8, newRegex string, checkOnly bool) {
 	contents, err := os.ReadFile(filePath)
 	if err != nil {
 		logger.Fatal().Err(err).Msgf("Failed to read rule file %s", filePath)
@@ -214,6 +225,9 @@ func updateRegex(filePath string, ruleId string, chainOffset uint8, newRegex str
 	}
 	updatedLine := found[0][1] + newRegex + found[0][3]
 	lines[index] = []byte(updatedLine)
+	if checkOnly {
+		return
+	}
 
 	err = os.WriteFile(filePath, bytes.Join(lines, []byte("\n")), fs.ModePerm)
 	if err != nil {
